@@ -118,3 +118,52 @@ func TestVerifC18_ResponseTimeout(t *testing.T) {
 		})
 	})
 }
+
+// TestVerifC19_ResponseTimeout: C19's clause "an expired response timeout of the retrying client is identifiable as
+// RequestTimeoutError", for first transmissions and retransmissions alike: after every silently dropped acknowledgement
+// (on a link the broker did not cut) OnError receives an error for which errors.As(**RequestTimeoutError) holds, and
+// that error still exposes its context cause.
+func TestVerifC19_ResponseTimeout(t *testing.T) {
+	vRun(t, "C19", vOpts{CurFile: true, ReplayReps: 10}, c18Gen, func(tb rapid.TB, c e4Case) {
+		e4Check(tb, "C19", c, func(r *e4Result) string {
+			for _, e := range r.Log {
+				if e.Kind != "B-DROPPED" {
+					continue
+				}
+				cut, closed := false, false
+				for _, l := range r.Log {
+					if l.Seq > e.Seq && l.Conn == e.Conn {
+						if l.Kind == "CUT" && !closed {
+							cut = true
+						}
+						if l.Kind == "CLOSE-LOCAL" {
+							closed = true
+						}
+					}
+				}
+				if cut || !closed {
+					continue // C18 decides whether the client reacts at all; here only what the reported error looks like
+				}
+				found := false
+				for _, oe := range r.OnErrors {
+					var rte *RequestTimeoutError
+					if oe.Seq > e.Seq && errors.As(oe.Err, &rte) {
+						found = true
+					}
+				}
+				if !found {
+					return fmt.Sprintf("the %s for id %d was dropped on c%d (#%d) and the client gave up on that connection, but no error passed to OnError is identifiable as RequestTimeoutError (errors.As)", refTypeNames[e.Pkt.Type], e.Pkt.ID, e.Conn, e.Seq)
+				}
+			}
+			return ""
+		}, func(r *e4Result) (bool, []string) {
+			n := 0
+			for _, e := range r.Log {
+				if e.Kind == "B-DROPPED" {
+					n++
+				}
+			}
+			return n > 0, []string{"response-timeout-via-onerror"}
+		})
+	})
+}
